@@ -177,6 +177,8 @@ def main(argv):
             if tier == "thorough" and not clause.cross_shard:
                 # the per-clause thorough figures are the planning numbers of DESIGN section 8; the thorough tier multiplies them
                 total *= int(os.environ.get("PV_THOROUGH_SCALE", getattr(mod, "THOROUGH_SCALE", 3)))
+            if os.environ.get("PV_BUDGET_SCALE"):      # sensitivity tooling only (tools/automutate.py first pass); never set by a registered check
+                total = int(total * float(os.environ["PV_BUDGET_SCALE"]))
             n = -(-total // nshards) if total > 0 else 0
             seed = derive_seed(vseed, pid, clause.name, 0 if clause.cross_shard else shard)
             if clause.cross_shard:
